@@ -20,9 +20,7 @@ file_status status(const path &p, system::error_code *ec) {
 
 namespace vrt {
 
-// FileHDF5::fileExists: "is there a file of that name" — answered by the model's file table instead of ifstream
-bool fileExists(const void *self, const std::string &name) VRT("_ZNK3nix4hdf58FileHDF510fileExistsERKNSt7__cxx1112basic_stringIcSt11char_traitsIcESaIcEEE");
-bool fileExists(const void *, const std::string &name) { return h5m_file_exists(name.c_str()) != 0; }
+// FileHDF5::fileExists is NOT replaced: its TU is built with rt/vrt_fstream.hpp force-included (std::ifstream over the model's file table)
 
 // numToStr<unsigned long long>: decimal representation (same result as operator<< in the C locale)
 std::string numToStr_y(unsigned long long n) VRT("_ZN3nix4util8numToStrIyEENSt7__cxx1112basic_stringIcSt11char_traitsIcESaIcEEET_");
